@@ -660,10 +660,11 @@ def apply_edit(doc, op, model: EditModel, tmpdir):
         root = etree.fromstring(state[path])
         root.append(etree.Comment(f" vf set_part {k} "))
         data = etree.tostring(root, xml_declaration=True, encoding="UTF-8")
-        doc.set_part(path, data)
+        # the documented shortcut names ('content', 'styles', 'settings') or the full path
+        doc.set_part(path.split(".")[0] if (k // 3) % 2 else path, data)
         model.overwritten[path] = data
         model.frozen.add(path)
-        return "set_part_xml:" + ("parsed-before" if path in parsed_parts(doc) else "unparsed")
+        return "set_part_xml:" + ("parsed-before" if path in parsed_parts(doc) else "unparsed") + ("+shortcut" if (k // 3) % 2 else "")
     elif o == "set_part_binary":
         path = f"Pictures/vf{k % 3}.bin"
         doc.set_part(path, b"binary" + str(k).encode())
